@@ -119,6 +119,7 @@ class SimProc:
         self.thread = None
         self.t_start = None
         self.die_after_sends = None  # fault: die right after the n-th complete request
+        self.die_goodbye = False  # ... after sending the client's close request as well
 
     # -- loop side -------------------------------------------------------------------------
     async def run(self):
